@@ -256,6 +256,10 @@ def gen_cov(tier, seed):
     pts = [(53, 386352.3979, 7381850.7689, 603.3466), (55, 2e5, 5.8e6, None), (50, 9e5, 9.4e6, 0.0), (59, 5e5, 3.4e6, 3000.0)]
     for p in pts:
         yield {'pt': list(p), 'mats': mats + cols}
+    # grid coordinates whose position lies beyond the 180-degree meridian of the stated zone (zone 60 east of it, zone 1 west of it:
+    # the longitude of the point as the grid conversion reports it is outside [-180, 180]) and in zones far from Australia
+    for p in [(60, 8.3e5, 6.7e6, 10.0), (1, 1.7e5, 6.7e6, None), (60, 7.0e5, 3.4e6, 5.0), (1, 2.9e5, 3.2e6, 0.0), (30, 5e5, 5.0e6, 100.0), (31, 1.7e5, 8.9e6, None)]:
+        yield {'pt': list(p), 'mats': mats[::4] + cols[:2]}
 
 
 def ev_cov(case, rec):
